@@ -1637,7 +1637,7 @@ class ArmV6:
                 hsr_string = set_substring(hsr_string, 3, 0, cp_num & 0xF)
                 self.write_hsr(0b000111, hsr_string)
                 if not self.registers.current_mode_is_hyp():
-                    self.registers.take_hyp_trap_exception()
+                    raise HypTrapException()
                 else:
                     raise UndefinedInstructionException()
             return self.cpx_instr_decode(instr)
@@ -1686,7 +1686,7 @@ class ArmV6:
                         hsr_string = set_substring(hsr_string, 8, 5, substring(instr, 15, 12))
                         hsr_string = set_substring(hsr_string, 4, 1, substring(instr, 3, 0))
                         self.write_hsr(0b000101, hsr_string)
-                        self.registers.take_hyp_trap_exception()
+                        raise HypTrapException()
                 return True
             elif opc1 == 7:
                 return self.cp14_jazelle_instr_decode(instr)
@@ -1728,7 +1728,7 @@ class ArmV6:
                     hsr_string = set_substring(hsr_string, 4, 1, substring(instr, 3, 0))
                     hsr_string = set_bit_at(hsr_string, 0, bit_at(instr, 20))
                     self.write_hsr(0b000011, hsr_string)
-                self.registers.take_hyp_trap_exception()
+                raise HypTrapException()
             if (have_security_ext() and
                     have_virt_ext() and
                     not self.registers.is_secure() and
@@ -1750,7 +1750,7 @@ class ArmV6:
                         hsr_string = set_substring(hsr_string, 4, 1, substring(instr, 3, 0))
                         hsr_string = set_bit_at(hsr_string, 0, bit_at(instr, 20))
                         self.write_hsr(0b000011, hsr_string)
-                        self.registers.take_hyp_trap_exception()
+                        raise HypTrapException()
             return self.cp15_instr_decode(instr)
 
     def coproc_get_word_to_store(self, cp_num, instr):
